@@ -72,7 +72,30 @@ def run(rep, tier, args):
     with ThreadPoolExecutor(max_workers=4) as ex:
         list(ex.map(lambda i: rep.judge_trace("Trace_BlockRules", "Trace_BlockRules.cfg", files[i],
                                               name="C15-b1-p%d" % i, key_fn=key), range(len(files))))
+    observe_all(rep, files)
     selftest(rep, tp, wd)
+
+
+def observe_all(rep, files):
+    """validate_trace stops after a few divergent walks per file; when walks diverged and none of the re-judged ones
+    broke an invariant, judge every file once more as a whole in observe mode so that a divergence cannot mask a
+    violation further down."""
+    import hashlib
+    if not rep.divergences or rep.violations:
+        return
+    for i, f in enumerate(files):
+        ws = vlib.split_trace(f)
+        n = sum(len(w) for w in ws)
+        kind, r, _ = vlib._validate_file("Trace_BlockRules", "Trace_BlockRules.cfg", f, n, "C15-observe-all-%d" % i,
+                                         False, 1800)
+        if kind == "violated":
+            idx = vlib._violation_walk_index(r, ws)
+            bad = ws[idx if idx is not None else 0]
+            k = key(bad, r.violated)
+            p = vlib.save_replay(rep.prop, "violation-observe-%s.ndjson" % hashlib.sha1(k.encode()).hexdigest()[:10], bad)
+            rep.violation(k, p, "violated on the implementation's recorded states: %s\n  key: %s" % (r.violated, k))
+        elif kind != "accepted":
+            raise vlib.ToolError("observe mode rejected %s" % f)
 
 
 def selftest(rep, trace, wd):
